@@ -46,6 +46,10 @@ CLAIMED = {
          "Exploration: circle-circle intersections in every relative position (separate, externally/internally tangent, crossing, nested, concentric, equal radii, identical), intersection intervals, circle-segment and curve-circle intersections, tangent points from external points at d/r from 1+1e-6 to 1e3, outer tangent segments, arcs by angles and through three points (start/end/sweep sign/length/fraction), and the cached bounding boxes of circles and arcs against dense samples and an independent box.",
          "Tangent configurations are built on dyadic, axis-aligned coordinates so that they are exact; non-constructed cases stay >= 1e-6 r away from tangency; on-object tolerance 1e-9*scale. The private line-circle primitive is observed through the public segment intersection. Known finding: reversed left/right order of outer tangents for equal radii (cannot be repaired without editing an existing unit test).",
          "3 / C11"),
+ "C12": ("runtime monitor: union-find / multiset counting oracles, exhaustive enumeration of small face lists, repetition across hash-iteration orders, hooked step bounds",
+         "Exploration with an exhaustively enumerated sub-space: every set of <= 5 oriented faces over 5 labelled vertices and of <= 4 over 6 (123 789 meshes: disks, fans, bow-ties, flipped neighbours, Moebius strips, tetrahedra, fins) plus random larger meshes (grid disks with holes, tubes, closed surfaces, multi-component, welded vertices, flipped faces, permuted labels), voxel sets and index-pair lists. calc_edges must err exactly for edges shared by > 2 faces, otherwise list each undirected edge once with its length, map faces to edges and return boundary loops that are closed cycles containing every boundary edge exactly once; get_patches and clusters_from_sparse must be the exact connectivity partitions; chained_indices must use every pair once and be maximal; every call is repeated so that several hash-iteration orders occur and is bounded by hooked step counters; create_box / create_cylinder must be consistently wound with outward normals.",
+         "Termination is judged as bounded progress (8(F+E+V+1)^2 steps on the hooked loops); patch decomposition is judged only for meshes without an edge shared by more than two faces, as the property states. Uses hooks H1/H4.",
+         "3 / C12"),
  "C16": ("runtime monitor: brute-force signed-distance oracle for deviations; Vec / three-vector sequential models over random call histories for the aggregates; defining rule for the breakpoint table",
          "Exploration: point_curve2_deviation / line_surface_deviations / Mesh::measure_point_deviation (both modes) with measured points on both sides, in the 1e-6 coincidence band, at corners and beyond open ends; Distance2/Distance3 value, reversal, centre; histories of up to 200 SurfaceDeviationSet new/push/push_new calls with ties, equal extremes and one-signed values checked after every call against a Vec model (max, min, symmetric zone, len, order); histories of PointCloud try_new/empty/append/merge/create_from_indices/transform with consistent and inconsistent normal/colour presence (accepted operations append exactly, rejected ones change nothing, lengths stay equal); breakpoint tables queried at, between, one ulp around and beyond both ends.",
          "Deviation sign judged only where the closest edges/faces agree on the side; below the library's absolute 1e-6 coincidence threshold only |value| <= distance is required.",
